@@ -741,7 +741,12 @@ def gen_history(rng, length):
                                                                     [1, [], [[2, rbytes(rng, 5).hex()]], None]], "rv": []}]))
     if rng.random() < 0.65:
         reqs += contention(rng, w)
+    if rng.random() < 0.6:
+        reqs += enabler_attack(rng, w, w.mut_si[0], rng.randrange(2, 6))
     tail = [gen_request(rng, w, None) for _ in range(length)]
+    if rng.random() < 0.5:
+        k = rng.randrange(len(tail) + 1)
+        tail = tail[:k] + enabler_attack(rng, w, rng.choice(w.mut_si), rng.randrange(2, 5)) + tail[k:]
     if rng.random() < 0.5:
         # more cross-secret traffic later in the history, when the random requests have moved things around
         k = rng.randrange(len(tail) + 1)
@@ -766,6 +771,29 @@ def cross_requests(rng, w, si, count):
             a = rng.randrange(size)
             b = rng.randrange(a + 1, size + 1)
             reqs.append(legit_request(rng, w, "write", si, n, ["w", "bytes %d-%d/*" % (a, b - 1), t[a:b].hex()], upload=sec))
+    return reqs
+
+
+def enabler_attack(rng, w, si, count):
+    """well-formed read-test-write requests (right swissnum, 32-byte secrets) carrying a WRONG write enabler for the
+    slot: overwriting existing shares, naming only new share numbers, mixing both, or only reading"""
+    idx = (w.imm_si + w.mut_si).index(si)
+    reqs = []
+    for _ in range(count):
+        wrong = w.enabler[(idx + 1) % 2] if rng.random() < 0.5 else rbytes(rng, 32)
+        kind = rng.choice(["existing", "new-only", "new-only", "mixed", "read-only"])
+        nums = {"existing": rng.choice([[0], [1], [0, 1]]), "new-only": rng.choice([[2], [3], [2, 5], [4]]),
+                "mixed": rng.choice([[0, 2], [1, 3], [0, 1, 4]]), "read-only": []}[kind]
+        tw = []
+        for x in nums:
+            writes = [[rng.randrange(10), rbytes(rng, rng.randrange(1, 8)).hex()] for _ in range(rng.choice([0, 1, 1, 2]))]
+            tw.append([x, [], writes, rng.choice([None, None, None, 0, rng.randrange(1, 10)])])
+        rv = [[rng.randrange(6), rng.randrange(1, 12)] for _ in range(rng.choice([0, 1, 2]) if nums else rng.choice([1, 2]))]
+        values = {"r": w.lease[idx % 3], "c": w.lease[(idx + 1) % 3], "w": wrong}
+        reqs.append({"route": "rtw", "si": si, "n": 0, "method": "POST", "path": route_path("rtw", si, 0),
+                     "auth": [auth_value(w.swissnum).hex()],
+                     "xauth": [x.hex() for x in mutate_secrets(rng, w, REQUIRED["rtw"], values, "ok")],
+                     "body": ["q", {"tw": tw, "rv": rv}], "sw": "ok", "sec": "wrong-enabler", "pm": "ok"})
     return reqs
 
 
@@ -973,6 +1001,26 @@ def run_history(ctx, hist_id, w_swissnum, reqs, monitor_world=None):
                     if not any(v == we_b for (_, v) in pres) and after_m.get(k) != (we, data):
                         ctx.violation("a mutable share changed without its write enabler", sub,
                                       "write-enabler-bypass-%s" % req["sec"])
+                # the statement: "mutable writes require the write enabler" — a slot that already holds shares
+                if req["pm"] == "ok" and req["body"][0] == "q":
+                    slot = {int(k.split("/")[1]): bytes.fromhex(v[0]) if v[0] != "-" else b"" for k, v in enablers.items()
+                            if k.split("/")[0] == req["si"]}
+                    generous = {v for (_, v) in pres} | {(v + b"\x00" * 32)[:32] for (_, v) in pres}
+                    if slot and not any(e in generous for e in slot.values()):
+                        named = [x[0] for x in req["body"][1]["tw"]]
+                        cls = ("read-only" if not named else "existing" if all(x in slot for x in named)
+                               else "new-only" if not any(x in slot for x in named) else "mixed")
+                        ctx.count("wrong-enabler-attempt:" + cls)
+                        marker = "/%s/" % req["si"]
+                        fb = {p_: c_ for p_, c_ in before_raw[0].items() if marker in p_ + "/"}
+                        fa = {p_: c_ for p_, c_ in after_raw[0].items() if marker in p_ + "/"}
+                        new_shares = sorted(int(k.split("/")[1]) for k in after_m if k.split("/")[0] == req["si"] and k not in enablers)
+                        accepted = named and code < 400          # a request that only reads is not a write: no refusal demanded
+                        if fb != fa or new_shares or accepted:
+                            ctx.violation("read-test-write with a wrong write enabler on a slot holding shares %s: status %d, "
+                                          "slot directory %s, new shares %s" % (sorted(slot), code,
+                                                                                  "unchanged" if fb == fa else "changed", new_shares),
+                                          sub, "wrong-enabler-accepted:" + cls)
             nontrivial = before_abs != "adv=0"
             ctx.case((req["route"], req["sw"], req["sec"], req["pm"], code, chg) if nontrivial else None)
             ctx.count("route:%s:%d" % (req["route"], code))
